@@ -304,10 +304,13 @@ def plan(tier, seed):
         "extracted": extracted,
         "explanation": "Kani/CBMC over impl_horzcat_fxn / impl_vertcat_fxn (pattern tables + allocation) and the concatenation structs with their "
                        "CopyMat kernels, blocks symbolic, shapes concrete",
-        "bounds": "rows of 2-3 scalar blocks and a single 1x3 block; element kind f64",
-        "outside": ["every concatenation in which a vector or matrix block stands next to another block, and every vertical concatenation (no verdict: see "
-                    "excluded_no_verdict) - the element placement of multi-block matrices is therefore NOT decided by this check", "the rejection of blocks whose heights/widths disagree or whose kinds differ: those checks live in matrix()/matrix_row() "
-                    "(src/interpreter/src/structures.rs), which evaluate syntax nodes with an Interpreter", "more than 3 blocks",
+        "bounds": "dispatch function: rows of 2-3 scalar blocks and a single 1x3 block.  Struct level (L1) and arm level: 2, 3, 4 and 5 blocks per row / column, "
+                  "blocks scalar, 2x1 / 3x1 / 1x2 / 1x3 vectors, 2x2 / 2x3 / 3x2 / 2x1-as-matrix blocks; element kinds f64 (u8, i64, bool samples)",
+        "outside": ["impl_horzcat_fxn / impl_vertcat_fxn called as a whole with a vector or matrix block next to another block (no verdict: "
+                    "Vec<(Box<dyn CopyMat<T>>, usize)>, see excluded_no_verdict): those shapes are decided in two pieces instead - the match arm of "
+                    "impl_horzcat_arms! / impl_vertcat_arms! extracted verbatim (which struct, which argument order, output allocation) and the struct's "
+                    "solve() (element placement); the is_compatible kind test in front of the arms is not on that path", "the rejection of blocks whose heights/widths disagree or whose kinds differ: those checks live in matrix()/matrix_row() "
+                    "(src/interpreter/src/structures.rs), which evaluate syntax nodes with an Interpreter", "more than 5 blocks; results larger than 4x4 / 2x7",
                     "empty / optional elements", "fixed-size storage forms"],
         "caps": {"quick_timeout": 900, "thorough_timeout": 2400, "heavy_jobs": 6, "heavy_rss_gb": 9},
     }
